@@ -155,6 +155,46 @@ def run(ctx, prog):
         return None
     A.require('serialize/pipeline-roaring-zlib-base64url', paths, r_ser, replay=R('[roundtrip]'))
 
+    # the byte codec is roaring's own: every Ok comes from deserialize_from over the whole input, and nothing in front of it can
+    # refuse an input roaring accepts (a second, hand-written reading of the format disagrees with it somewhere)
+    f = prog.one(IMPL + r'deserialize_slice$')
+    try:
+        paths, ex = A.paths(f, inline=IMPL + r'deserialize_slice::\{closure', same_file=True)
+    except Refuse:
+        paths, ex = A.paths(f, inline=IMPL + r'deserialize_slice::\{closure')
+
+    def r_ds(p):
+        if p.kind != 'return':
+            return 'panic ' + p.msg
+        rd = [c for c in p.calls if re.search(r'RoaringBitmap>?::deserialize_from$|RoaringBitmap>?::deserialize_unchecked_from$', c.name)]
+        if p.is_ok():
+            if len(rd) != 1 or not p.took(rd[0], 'Ok') or not mentions(rd[0].args[0], r'^data$') or apps(rd[0].args[0], r'Index|split|get|take'):
+                return 'accepted bitmap is not roaring\'s reading of the whole input'
+            if 'unchecked' in rd[0].name:
+                return 'unchecked roaring reader on external data'
+            return None if is_sub(p.term(p.payload()), ('field', rd[0].ret, 0, 'Ok')) else 'result is not the decoded bitmap'
+        # refused: only because roaring refused
+        return None if (len(rd) == 1 and p.took(rd[0], 'Err')) else 'input refused before / without roaring refusing it (a second reading of the format in front of the decoder)'
+    A.require('deserialize_slice/exactly-roarings-reader-on-the-whole-input', paths, r_ds, replay=R('[roundtrip]'))
+
+    f = prog.one(IMPL + r'serialize_vec$')
+    try:
+        paths, ex = A.paths(f, inline=IMPL + r'serialize_vec::\{closure', same_file=True)
+    except Refuse:
+        paths, ex = A.paths(f, inline=IMPL + r'serialize_vec::\{closure')
+
+    def r_sv(p):
+        if p.kind != 'return':
+            return 'panic ' + p.msg
+        ws = [c for c in p.calls if re.search(r'RoaringBitmap>?::serialize_into$', c.name)]
+        if p.is_ok():
+            if len(ws) != 1 or not p.took(ws[0], 'Ok') or not mentions(ws[0].args[0], r'^self$'):
+                return 'bytes are not roaring\'s serialisation of this bitmap'
+            bad = [c for c in p.calls if re.search(r'(^|::)(truncate|drain|split_off|pop|clear|resize)$', c.name)]
+            return ('serialised bytes reshaped with %s' % bad[0].name.split('::')[-1]) if bad else None
+        return None if (len(ws) == 1 and p.took(ws[0], 'Err')) else 'serialisation refused although roaring did not fail'
+    A.require('serialize_vec/exactly-roarings-writer', paths, r_sv, replay=R('[roundtrip]'))
+
     # decompression is the streaming decoder run to the end (no fixed-size output buffer, no ignored status)
     f = prog.one(IMPL + r'decompress_zlib$')
     paths, ex = A.paths(f)
@@ -342,3 +382,11 @@ def main(ctx):
     ctx.outside += ['roaring serialisation and set semantics (third-party)', 'zlib', 'base64 codec', 'sets as such: the solver decides the format detector and the wiring, not 10^5-element round trips']
     guarded(ctx, 'legacy-format detector', 'M', lambda: detector(ctx, prog))
     guarded(ctx, 'endpoint / document audit', 'M', lambda: run(ctx, prog))
+    # "reported revoked by validation exactly when its index is a member" also needs the status unit to reach the bitmap check: a
+    # RevocationBitmap2022 status is skipped only as configured, and one that does not convert is an error (C02's obligation, re-used)
+    import c02
+
+    def status_unit():
+        prog2, info2 = load(c02.CRATES, src_only=c02.SRC)
+        c02.units(ctx, prog2, only=r'^check_status/')
+    guarded(ctx, 'status unit (shared with C02)', 'M', status_unit)
